@@ -2,6 +2,7 @@ SPECIFICATION Spec
 CONSTANT MaxNodes = 5
 CONSTANT MaxLeaves = 3
 CONSTANT MaxList = 2
+CONSTANT MaxSingles = 3
 CONSTANT SymLeaves = 2
 CONSTANT Design = "quoted"
 CONSTANT Domains = {"labels"}
